@@ -2,6 +2,25 @@
 over the shards; budgets are case counts, never time."""
 
 PROPS = {
+    "C03": {
+        "pkg": "c03", "needs_gw": False, "level": "exploration",
+        "technique": "property-based testing (rapid): generated bucket policies / ACLs x caller x catalogue operation x target against an own evaluator of the policy language and the ACL table; oracle = refusal (AccessDenied), snapshot equality, no disclosure, per-key survival for batch deletes",
+        "level_text": ("Generated-input search: bucket A (owner alice) receives a generated policy (1-4 statements, Allow/Deny, principals, exact / "
+                       "wildcard actions, resource globs over the bucket's keys) or a generated ACL (grant headers for bob, carol, AllUsers); a "
+                       "catalogue request (every bucket / object / admin operation; copy sources in A, B, L; batch deletes with mixed keys; other "
+                       "buckets B, L, new) is sent by owner, non-owner user, userplus or admin. The model decides 'allowed' from the statement: "
+                       "admin or (policy set ? some Allow matches and no Deny matches, for any of the operation's acceptable S3 actions on the exact "
+                       "resource : ACL grants the permission). Only the sound direction is demanded: not allowed => not 2xx, byte-level snapshot "
+                       "unchanged, no stored content in the answer, every key of a batch delete the caller may not delete survives; and if the "
+                       "identical request succeeds for root the refusal must be exactly 403 AccessDenied."),
+        "level_note": "each operation maps to a set of acceptable actions (over-approximation of 'allowed' keeps the check sound); version-id routes are left to C09/C10. Exploration only.",
+        "rule": ("case = (policy | ACL, op, bucket, key, copy source, caller, batch keys). Non-trivial: the model denies and the identical request by root "
+                 "succeeds, or the request is a batch delete; distinct by the full tuple."),
+        "assumptions": ["in-process engine replicates runGateway wiring", "fresh gateway + fixture per case"],
+        "jobs": [
+            {"run": "TestC03A", "quick": 9000, "thorough": 400000, "shards_quick": 15, "shards_thorough": 16},
+        ],
+    },
     "C04": {
         "pkg": "c04", "needs_gw": True, "level": "exploration",
         "technique": "property-based testing (rapid): hostile strings in every client-controlled path-like parameter x spelling; oracle = snapshot of everything outside the named bucket's storage + canary scan of the answer and of the named bucket's files",
